@@ -423,7 +423,18 @@ def handlePrel (a b : String) (res : List String) : Option String := do
       let cc := g ab 0 != g nanb 1 || g ab 1 != g nanb 0 || g nab 0 != g anb 1 || g nab 1 != g anb 0
       -- point-set soundness on samples of all boundaries
       let allLoops := P.loops ++ Q.loops
-      let pts := allLoops.flatMap fun l => samples G l 64
+      -- witness points: sums of two boundary vertices (chord midpoints of one loop fall inside it,
+      -- sums across loops fall into the rings between them); points on any boundary are dropped.
+      -- (Boundary samples themselves are useless here: each lies on its own loop.)
+      let per := max 1 (24 / (max 1 allLoops.length))
+      let verts : List IV3 := (allLoops.flatMap fun l =>
+        let n := l.numEdges
+        if n == 0 then [] else (List.range per).map fun t => l.vertex G (t * n / per)).take 28
+      let va := verts.toArray
+      let pts : List IV3 := (List.range va.size).flatMap fun i =>
+        (List.range i).filterMap fun j =>
+          let p := (va[i]!).add (va[j]!)
+          if p.isZero then none else some p
       let pts := pts.filter fun p => !(allLoops.any fun l => onBoundary G l p)
       let cls := pts.map fun p => (P.containsPoint G p, Q.containsPoint G p)
       -- (inP, inQ) ; complements negate
